@@ -113,6 +113,10 @@ pub struct Plan {
     pub eintr_pct: u8,
     /// Largest number of bytes a child takes from its pipe per read.
     pub read_chunk: usize,
+    /// Largest number of bytes a child puts into its stdout/stderr pipe per write (a prover that flushes in the
+    /// middle of a line; 0 = as much as fits). Benign: what anthem reads in total is the same.
+    #[serde(default)]
+    pub out_piece: usize,
     /// A write that does not block is a scheduling point every this many calls (0 = never).
     pub write_yield_every: u32,
     /// Simulated clock advance per `Instant::now()`.
@@ -142,6 +146,7 @@ impl Plan {
             short_write_pct: 0,
             eintr_pct: 0,
             read_chunk: 65536,
+            out_piece: 0,
             write_yield_every: 0,
             clock_step_ms: 1,
             clock_jump_pct: 0,
